@@ -428,9 +428,8 @@ def run_sched_case(case: Dict[str, Any]) -> Dict[str, Any]:
     dcm = E["dcm"]
     ctl = Controller()
     shim_thr, shim_time = ShimThreading(ctl), ShimTime()
-    old = (dcm.threading, dcm.time)
-    dcm.threading, dcm.time = shim_thr, shim_time
-    from .rebind import rebind              # the same stand-ins under any import style of data_collection.py
+    from .rebind import rebind, snapshot, reinstate   # stand-ins under any import style of data_collection.py
+    old = snapshot(dcm, ("threading", "time"))
     rebind(dcm, {"threading": shim_thr, "time": shim_time})
     base = tempfile.mkdtemp(prefix="pyrtma_verif_dlrun_")
     wc = WarnCounter()
@@ -555,8 +554,7 @@ def run_sched_case(case: Dict[str, Any]) -> Dict[str, Any]:
             finally:
                 dc._dead = True
         root_logger.removeHandler(wc)
-        dcm.threading, dcm.time = old
-        rebind(dcm, {"threading": old[0], "time": old[1]})
+        reinstate(dcm, old)
         shutil.rmtree(base, ignore_errors=True)
     return obs
 
